@@ -7,6 +7,9 @@ From RPFT Require Import Base.Sexp Base.PyStr Base.PyStrFacts Base.SexpEq Base.R
      Comp.Refine Comp.RefineFacts Comp.RefineStore Comp.RefineStep Comp.RefineRun Comp.RefineFlow.
 Import ListNotations.
 
+Section WithNames.
+Context {GN : GenNames}.
+
 Lemma Sim_init : Sim [] st0 cs0.
 Proof.
   constructor; cbn; try reflexivity.
@@ -197,3 +200,4 @@ Proof.
   - destruct rows as [|cr0 r]; [exact I|]. exact Hfirst.
 Qed.
 End Final.
+End WithNames.
